@@ -1,5 +1,7 @@
 mod appender;
 mod core_sim;
+mod corpus;
+mod instr_sim;
 mod directive_sim;
 mod fmt_sim;
 mod fsites;
@@ -24,7 +26,7 @@ use fw::{Engine, GenCtx};
 use serde_json::Value;
 use std::io::Read;
 
-static ENGINES: &[&(dyn Engine)] = &[&appender::AppenderEngine, &core_sim::CoreEngine, &registry_sim::RegistryEngine, &span_sim::SpanEngine, &stack_sim::StackEngine, &wrap_sim::WrapEngine, &reload_sim::ReloadEngine, &directive_sim::DirectiveEngine, &fmt_sim::FmtEngine, &time_sim::TimeEngine, &rolling_sim::RollingEngine, &json_sim::JsonEngine, &log_sim::LogEngine];
+static ENGINES: &[&(dyn Engine)] = &[&appender::AppenderEngine, &core_sim::CoreEngine, &registry_sim::RegistryEngine, &span_sim::SpanEngine, &stack_sim::StackEngine, &wrap_sim::WrapEngine, &reload_sim::ReloadEngine, &directive_sim::DirectiveEngine, &fmt_sim::FmtEngine, &time_sim::TimeEngine, &rolling_sim::RollingEngine, &json_sim::JsonEngine, &log_sim::LogEngine, &instr_sim::InstrEngine];
 
 fn engine_for_prop(prop: &str) -> Option<&'static dyn Engine> {
     ENGINES.iter().copied().find(|e| e.props().contains(&prop))
@@ -51,6 +53,7 @@ fn budget(prop: &str) -> (u64, u64) {
         "C20" => (30_000, 500_000),
         "C16" => (40_000, 800_000),
         "C18" => (120_000, 2_500_000),
+        "C17" => (120_000, 2_000_000),
         "C06" => (120_000, 2_500_000),
         _ => (40_000, 1_000_000),
     }
